@@ -5,7 +5,8 @@
     Sources
       nextline/spawned/plugin/plugins/pdb_/prompt.py   Prompt.init / on_start_trace / on_end_trace / prompt,
                                                        relay_commands (its inner fn, the submit), try_again_on_error
-      nextline/spawned/plugin/plugins/pdb_/factory.py  PromptFunc._prompt_func, the counter
+      nextline/spawned/plugin/plugins/pdb_/factory.py  PromptFunc._prompt_func, the counter; PdbInstanceFactory, Factory (wiring)
+      nextline/spawned/plugin/plugins/repeat.py        Repeater.on_prompt (the generator that emits OnStartPrompt / OnEndPrompt)
       nextline/plugin/plugins/session/session.py       CommandSender.send_command, SendCommand._send_command,
                                                        RunSession.run (the statements that touch the filter)
       nextline/plugin/plugins/session/monitor.py       OnEvent.on_event_in_process (the cases)
@@ -27,7 +28,9 @@ Export ListNotations.
 Inductive attr :=
 | AQueueIn            (* queue_in: main process -> child *)
 | AQueueMap           (* Prompt._queue_map *)
-| AOpenPrompts.       (* context.open_prompts *)
+| AOpenPrompts        (* context.open_prompts *)
+| ASendCommand        (* context.send_command: None until RunSession.run binds it *)
+| AQueueOut.          (* queue_out: child -> main process (Repeater._queue_out) *)
 
 Inductive field := FTraceNo | FPromptNo | FCommand.
 
@@ -39,6 +42,11 @@ Inductive fname :=
 | FnSendCommand       (* SendCommand._send_command (context.send_command) *)
 | FnSender            (* CommandSender.send_command (through ahook.send_command) *)
 | FnImpSend.          (* Imp.send_command *)
+
+(** generator functions used as context managers *)
+Inductive gname :=
+| GRelayCommands      (* relay_commands(queue_in, queue_map), @contextmanager *)
+| GOnPrompt.          (* Repeater.on_prompt(prompt_no, text), entered through hook.with_.on_prompt *)
 
 Inductive expr :=
 | ENone
@@ -62,11 +70,17 @@ Inductive expr :=
 | ENot (a : expr)
 | EIsPdbCommand (e : expr)          (* isinstance(e, PdbCommand) *)
 | ECurrentTraceNo                   (* self._hook.hook.current_trace_no() *)
-| ECounterNext.                     (* counter() *)
+| ECounterNext                      (* counter() *)
+| EEmptyStr                         (* '' *)
+| EOpaque (what : string)           (* a read the command path does not depend on: utcnow(), current_trace_call_info(), self._run_no *)
+| EOpaqueOf (e : expr)              (* an attribute of such a value *)
+| EMkStartPrompt (t p : expr)       (* OnStartPrompt(trace_no=t, prompt_no=p, ...): the other keywords are pure reads, *)
+| EMkEndPrompt (t p c : expr).      (* OnEndPrompt(trace_no=t, prompt_no=p, command=c, ...)  emitted as SExpr statements in front *)
 
 Inductive callee :=
 | CFn (f : fname)                   (* a known function *)
-| CVar (x : string).                (* the function held by a variable *)
+| CVar (x : string)                 (* the function held by a variable *)
+| CAttr (a : attr).                 (* the function held by a shared attribute (context.send_command) *)
 
 (** exception classes named by an `except` clause *)
 Inductive handles := HBaseException | HException | HAssertionError | HKeyError.
@@ -89,8 +103,13 @@ Inductive stmt :=
 | SReturn (e : expr)
 | SRaise                                   (* bare `raise` inside a handler *)
 | STry (b : stmt) (h : handles) (hb : stmt)        (* try: b  except h: hb *)
-| SWithOnPrompt (p : expr) (b : stmt)      (* with (context := hook.with_.on_prompt(prompt_no=p, text=text)): b *)
-| SGenSend (e : expr)                      (* context.gen.send(e) *)
+| STryFinally (b f : stmt)                 (* try: b  finally: f *)
+| SWithGen (g : gname) (args : list expr) (b : stmt)   (* with <generator context manager>(args): b *)
+| SGenSend (e : expr)                      (* context.gen.send(e): into the generator of the enclosing with *)
+| SYield (dst : option string)             (* [dst =] yield *)
+| SWithExecutor (b : stmt)                 (* with ThreadPoolExecutor(max_workers=1) as executor: b  (exit: shutdown(wait=True)) *)
+| SSubmit (f : fname) (args : list expr)   (* future = executor.submit(f, args) *)
+| SFutureResult                            (* future.result() *)
 (* ---- main process *)
 | SSetAdd (s e : expr)                     (* s.add(e) *)
 | SSetDiscard (s e : expr)                 (* s.discard(e) *)
@@ -101,3 +120,18 @@ Inductive stmt :=
 | SBindSendCommand                         (* context.send_command = SendCommand(queue_in) *)
 | SSpawn.                                  (* context.running_process = await run_in_process(..., initializer=
                                               partial(spawned.set_queues, queue_in, queue_out)) *)
+
+(** ---- the object wiring of pdb_/factory.py: PdbInstanceFactory.init / create_local_trace_func, Factory *)
+Inductive wexpr :=
+| WVar (x : string)                          (* local / parameter / closure variable *)
+| WSelf (a : string)                         (* self.<a> *)
+| WAttr (e : wexpr) (a : string)             (* e.<a> *)
+| WNew (cls : string) (kw : list (string * wexpr))   (* Cls(k=v, ...): a class or a factory function, keywords only *)
+| WCallVal (e : wexpr).                      (* e() *)
+
+Inductive wstmt :=
+| WAssign (x : string) (e : wexpr)
+| WSetSelf (a : string) (e : wexpr)          (* self.<a> = e *)
+| WSetAttr (x a : string) (e : wexpr)        (* x.<a> = e *)
+| WDef (name : string) (body : list wstmt)   (* def name(): body   (a closure over the enclosing locals) *)
+| WReturn (e : wexpr).
